@@ -90,6 +90,9 @@ def prepare(tier):
     _T['ents'] = ents
     from exactly_lib.cli_default.program_modes.test_case import builtin_symbols
     _T['builtin_public'] = sorted(b.name for b in builtin_symbols.ALL)
+    o = cli.run_case('[setup]\ndef no-such-type X = 1\n')
+    m = re.search(r'Expecting one of ([\w|-]+)', o.err)
+    _T['def_types'] = m.group(1).split('|') if m else []
     # suite instructions
     suite = {}
     for s in SUITE_SECTIONS:
@@ -117,6 +120,15 @@ def cases(tier):
     for s in SUITE_SECTIONS:
         for n in sorted(set(_T['suite'][s][1]) | {'preprocessor', 'no-such-suite-instruction'}):
             yield ('suite-instr', s, n)
+    type_cands = sorted(set(_T['ents']['type'][1]) | set(_T['def_types']) | {'no-such-type', 'integer', 'regex'})
+    for n in type_cands:
+        yield ('type', n)
+    for n in sorted(set(_T['ents']['reporter'][1]) | {'no-such-reporter', 'xml'}):
+        yield ('reporter', n)
+    for n in sorted(set(_T['ents']['confparam'][1])):
+        yield ('confparam', n)
+    for n in sorted(set(_T['ents']['directive'][1])):
+        yield ('directive', n)
     yield ('html',)
 
 
@@ -222,6 +234,40 @@ def run(case) -> Result:
         if n == 'no-such-suite-instruction' and accepted:
             errs.append('suite [%s] accepts a bogus instruction name' % s)
         res.outcomes[('suite-instr', listed, accepted)] += 1
+    elif k == 'type':
+        n = case[1]
+        listed = n in _T['ents']['type'][1]
+        o = cli.run_case('[setup]\ndef %s X = \n' % n)
+        accepted = 'Invalid type' not in o.err
+        if listed != accepted:
+            errs.append('type %s: %s by `help type`, %s by `def`' % (n, 'listed' if listed else 'not listed', 'accepted' if accepted else 'rejected'))
+        if (n in _T['def_types']) != accepted:
+            errs.append('type %s: the error message of def lists it: %s, accepted: %s' % (n, n in _T['def_types'], accepted))
+        res.outcomes[('type', listed, accepted)] += 1
+        res.nontrivial += 1 if listed else 0
+    elif k == 'reporter':
+        n = case[1]
+        listed = n in _T['ents']['reporter'][1]
+        p = w.write('r.suite', '[cases]\n')
+        o = cli.run(['suite', '--reporter', n, str(p)])
+        accepted = o.rc != 64
+        if listed != accepted:
+            errs.append('suite reporter %s: %s by the help, %s by the program (exit %s)' % (n, 'listed' if listed else 'not listed', 'accepted' if accepted else 'rejected', o.rc))
+        res.outcomes[('reporter', listed, accepted)] += 1
+        res.nontrivial += 1 if listed else 0
+    elif k == 'confparam':
+        n = case[1]
+        o = cli.run_case('[conf]\n%s = \n' % n)
+        if 'Unknown instruction' in o.err:
+            errs.append('configuration parameter %s is documented but there is no [conf] instruction of that name' % n)
+        res.nontrivial += 1
+    elif k == 'directive':
+        n = case[1]
+        w.write('inc-file.xly', '')
+        o = cli.run_case('[setup]\n%s inc-file.xly\n' % n)
+        if o.rc != 0:
+            errs.append('directive %s is documented but `%s FILE` in [setup] gives %s' % (n, n, o.out.strip()))
+        res.nontrivial += 1
     elif k == 'html':
         o = cli.run(['help', 'htmldoc'])
         e = ok_help(o)
